@@ -148,7 +148,11 @@ func cmdTokens(args []string) {
 				em.Emit(map[string]interface{}{"op": "skip", "why": "not constructible through the public API"})
 				continue
 			}
-			emitRT(em, ts, ent, "built")
+			e2 := ent
+			if i%4 == 1 {
+				e2 = 0 // a password of a recipe without any choice has zero entropy
+			}
+			emitRT(em, ts, e2, "built")
 		case "dec":
 			if s.Str == nil {
 				s.Str = []int{}
@@ -158,6 +162,12 @@ func cmdTokens(args []string) {
 			}
 			d := decode(FromCPs(s.Str), s.Idx, ent)
 			em.Emit(map[string]interface{}{"op": "dec", "str": s.Str, "idx": s.Idx, "res": d})
+			if i%3 == 0 { // the same string and index again, with another entropy: the result must carry THAT entropy
+				d2 := decode(FromCPs(s.Str), s.Idx, ent+1.5)
+				em.Emit(map[string]interface{}{"op": "dec", "str": s.Str, "idx": s.Idx, "res": d2})
+				d3 := decode(FromCPs(s.Str), s.Idx, 0)
+				em.Emit(map[string]interface{}{"op": "dec", "str": s.Str, "idx": s.Idx, "res": d3})
+			}
 		case "gen":
 			var p *spg.Password
 			var err error
